@@ -37,6 +37,11 @@ pub struct Case {
     pub evals: Vec<XSpec>,
     /// number of extra (interior, uniformly spread) sites for a least-squares solve; 0 = square
     pub lsq_extra: u8,
+    /// derivative content of the dual abscissa over two variables (u, w): first-order
+    /// coefficients (c_u, c_w) and second-order storage (s_uu, s_uw, s_ww); None = the plain
+    /// variable x with unit sensitivity
+    #[serde(default)]
+    pub abscissa: Option<[Fl; 5]>,
 }
 
 pub struct C15;
@@ -95,8 +100,9 @@ fn case_strategy() -> impl Strategy<Value = Case> {
         0u8..3,
         proptest::collection::vec(x_spec(), 1..5),
         prop_oneof![4 => Just(0u8), 1 => 1u8..=6],
+        proptest::option::weighted(0.7, [coeff(), coeff(), coeff(), coeff(), coeff()]),
     )
-        .prop_map(|(mut knots, layout, data, data_kind, evals, lsq_extra)| {
+        .prop_map(|(mut knots, layout, data, data_kind, evals, lsq_extra, abscissa)| {
             knots.k = knots.k.max(2);
             if let Layout::Natural { .. } = layout {
                 knots.k = 4;
@@ -108,7 +114,7 @@ fn case_strategy() -> impl Strategy<Value = Case> {
                     knots.interior.push((2, 1));
                 }
             }
-            Case { knots, layout, data, data_kind, evals, lsq_extra }
+            Case { knots, layout, data, data_kind, evals, lsq_extra, abscissa }
         })
 }
 
@@ -344,10 +350,17 @@ impl Property for C15 {
                     }
                 }
             }
-            // dual abscissae on the float spline
+            // dual abscissae on the float spline: a plain variable, or a number that itself
+            // depends on two variables with first- and second-order content (chain rule)
+            let (an, c1, st): (Vec<String>, Vec<f64>, Vec<f64>) = match &c.abscissa {
+                None => (vec!["x".to_string()], vec![1.0], vec![0.0]),
+                Some(a) => (vec!["u".to_string(), "w".to_string()], vec![a[0].0, a[1].0], vec![a[2].0, a[3].0, a[3].0, a[4].0]),
+            };
+            v.label_if(c.abscissa.is_some(), "abscissa:composite");
+            let na = an.len();
             for m in 0..k.min(3) {
-                let xd = Dual::new(*x, vec!["x".to_string()]);
-                let xd2 = Dual2::new(*x, vec!["x".to_string()]);
+                let xd = Dual::try_new(*x, an.clone(), c1.clone()).expect("abscissa");
+                let xd2 = Dual2::try_new(*x, an.clone(), c1.clone(), st.clone()).expect("abscissa");
                 let r = catch(|| (sp.ppdnev_single_dual(&xd, m), sp.ppdnev_single_dual2(&xd2, m)));
                 let (r1, r2) = match r {
                     Ok((Ok(a), Ok(b))) => (a, b),
@@ -361,18 +374,27 @@ impl Property for C15 {
                     }
                 };
                 let d = [sref(*x, m), sref(*x, m + 1), sref(*x, m + 2)];
-                let g1 = r1.gradient1(vec!["x".to_string()])[0];
-                let g2 = r2.gradient1(vec!["x".to_string()])[0];
-                let h2 = r2.gradient2(vec!["x".to_string()])[[0, 0]];
-                let ok = (r1.real() - d[0].0).abs() <= 1e-10 * (d[0].1 + cscale)
-                    && (r2.real() - d[0].0).abs() <= 1e-10 * (d[0].1 + cscale)
-                    && (g1 - d[1].0).abs() <= 1e-10 * (d[1].1 + cscale)
-                    && (g2 - d[1].0).abs() <= 1e-10 * (d[1].1 + cscale)
-                    && (h2 - d[2].0).abs() <= 1e-10 * (d[2].1 + cscale);
+                let g1 = r1.gradient1(an.clone());
+                let g2 = r2.gradient1(an.clone());
+                let h2 = r2.gradient2(an.clone());
+                let cmax = c1.iter().chain(st.iter()).fold(1.0f64, |a, b| a.max(b.abs()));
+                let mut ok = (r1.real() - d[0].0).abs() <= 1e-10 * (d[0].1 + cscale) && (r2.real() - d[0].0).abs() <= 1e-10 * (d[0].1 + cscale);
+                for i in 0..na {
+                    let eg = d[1].0 * c1[i];
+                    ok &= (g1[i] - eg).abs() <= 1e-10 * (d[1].1 + cscale) * cmax && (g2[i] - eg).abs() <= 1e-10 * (d[1].1 + cscale) * cmax;
+                    for j in 0..na {
+                        // d2/dvdw s(x(v,w)) = s'' x_v x_w + s' x_vw, with x_vw = 2 x storage
+                        let eh = d[2].0 * c1[i] * c1[j] + d[1].0 * 2.0 * st[i * na + j];
+                        ok &= (h2[[i, j]] - eh).abs() <= 1e-10 * (d[2].1 + d[1].1 + cscale) * cmax * cmax;
+                    }
+                }
                 if !ok {
                     v.fail(
                         "dual abscissa does not return the spline's own derivatives as sensitivities",
-                        format!("k={} x={:?} m={}: Dual ({:e}, {:e}), Dual2 ({:e}, {:e}, {:e}); spline derivatives {:e}, {:e}, {:e}", k, x, m, r1.real(), g1, r2.real(), g2, h2, d[0].0, d[1].0, d[2].0),
+                        format!(
+                            "k={} x={:?} m={} abscissa content {:?}/{:?}: Dual ({:e}, {:?}), Dual2 ({:e}, {:?}, {:?}); spline derivatives s^(m)={:e}, s^(m+1)={:e}, s^(m+2)={:e}",
+                            k, x, m, c1, st, r1.real(), g1.to_vec(), r2.real(), g2.to_vec(), h2.iter().collect::<Vec<_>>(), d[0].0, d[1].0, d[2].0
+                        ),
                     );
                     return v;
                 }
@@ -569,6 +591,7 @@ impl Property for C15 {
             Floor { label: "cell:Dual2-spline", min: n / 5 },
             Floor { label: "data:polynomial", min: n / 5 },
             Floor { label: "least-squares", min: n / 20 },
+            Floor { label: "abscissa:composite", min: n / 2 },
         ]
     }
 
